@@ -73,7 +73,20 @@ CHECKS["C05"] = dict(
     technique="deterministic simulation: seeded operation histories against an executable method-table reference model and fresh-build oracle",
 )
 
-PENDING = {p: "check under construction in this session; will be claimed (see DESIGN.md section 0)" for p in ("C04","C16","C20")}
+CHECKS["C16"] = dict(
+    category="exploration",
+    text="Seeded histories (3-15 operations) over graphs of up to 6 functions: roots, copy, variant, mixin combination, "
+         "add_mixins, register / unregister on any node, calls on any node at any point, with and without linkback. "
+         "A derivation-graph model decides, per modification, must-refuse / must-succeed / undetermined from the routes to "
+         "used descendants, and gives each node's effective method set; after every modification every used node, and at the end "
+         "every node, must equal a plain fresh function registering that set.",
+    design_ref="DESIGN.md 4/C16",
+    note="One method per (types, priority) per node; mixin parents with disjoint keys; mixed linkback/plain routes accept either "
+         "verdict. Differential against the library's own fresh build. Sampling.",
+    technique="deterministic simulation: seeded operation histories over a derivation graph against an executable graph model and fresh-build oracle",
+)
+
+PENDING = {p: "check under construction in this session; will be claimed (see DESIGN.md section 0)" for p in ("C04","C20")}
 
 
 def main():
